@@ -360,7 +360,7 @@ def check_restore(template):
 
 # --- the python: switch as the server applies it (handlers/tal.py), along histories of configurations -------------
 
-GATE_SETTINGS = ["true", "absent", "false", "no", "0"]
+GATE_SETTINGS = ["true", "absent", "false", "no", "0", "off", "OFF", "False"]  # every spelling of "false" the configuration parser documents
 
 
 def check_gate_history(hist):
@@ -385,7 +385,7 @@ def check_gate_history(hist):
             if r.internal_error:
                 bad = ("error", "%s under allowpythonpath=%s" % (r.describe_error(), setting))
                 break
-            disabled = setting in ("false", "no", "0")
+            disabled = setting.lower() in ("false", "no", "0", "off")
             if disabled and size1 != size0:
                 bad = ("python-evaluated", "configuration history %r: with allowpythonpath=%s (step %d) the python: expressions of the page were evaluated" % (list(hist), setting, step))
                 break
